@@ -174,6 +174,7 @@ def check(chk):
     _player_addressing(chk, repo)
     _events_switched_on(chk, repo)
     _score_queue_adds(chk, repo)
+    _remembered_selection(chk, repo, md, super_chain)
 
     # ------------------------------------------------------------ FLOW-4
     n_f = 0
@@ -368,6 +369,83 @@ def _deferred_writes(chk, repo):
            construct=cc.ident, text="only part of a block list examined")
 
 
+def _remembered_selection(chk, repo, md, super_chain):
+    """MEMO-11: a mode device that remembers a choice made from its members' per-player state in a lazily filled attribute
+    (`if not self.A: <fill A>` ... use self.A) forgets it when the mode unloads: the next player's turn starts with the device's
+    code object unchanged, and a filled memo would answer for the previous player.
+    RESTORE-11: the generic "enable at mode start unless enable_events are configured" of ModeDevice is never in effect for a
+    device whose enable() writes persisted per-player enable flags (its own, through EnableDisableMixin, or those of its members
+    by forwarding enable()): the flags the player accumulated decide, not the mode start."""
+    def plain_store(m, attr):
+        return [x for x in walk_local(m.node) if isinstance(x, ast.Assign) and any(src(t) == "self." + attr for t in x.targets) and
+                not (isinstance(x.value, ast.Constant))]
+    n_memo = 0
+    for c in repo.subclasses(md, strict=False):
+        for name, m in sorted(c.methods.items()):
+            for x in walk_local(m.node):
+                if not isinstance(x, ast.If):
+                    continue
+                t = x.test
+                a = None
+                if isinstance(t, ast.UnaryOp) and isinstance(t.op, ast.Not) and isinstance(t.operand, ast.Attribute) and dotted(t.operand.value) == "self":
+                    a = t.operand.attr
+                elif isinstance(t, ast.Compare) and len(t.ops) == 1 and isinstance(t.ops[0], ast.Is) and src(t.comparators[0]) == "None" and \
+                        isinstance(t.left, ast.Attribute) and dotted(t.left.value) == "self":
+                    a = t.left.attr
+                if a is None or a in c.methods:        # properties have their own storage rules (PAIR-12 / FLOW-4)
+                    continue
+                fill = False
+                for y in x.body:
+                    for z in ast.walk(y):
+                        if isinstance(z, ast.Assign) and any(src(tt) == "self." + a for tt in z.targets) and not isinstance(z.value, ast.Constant):
+                            fill = True
+                        if isinstance(z, ast.Call) and isinstance(z.func, ast.Attribute) and dotted(z.func.value) == "self":
+                            cal = repo.lookup_method(c, z.func.attr)
+                            if cal is not None and plain_store(cal, a):
+                                fill = True
+                if not fill:
+                    continue
+                n_memo += 1
+                chain = super_chain(c, "device_removed_from_mode") + super_chain(c, "device_loaded_in_mode")
+                chk.analysed(m, *chain)
+                done = False
+                for mm in chain:
+                    mcfg = mm.cfg()
+                    resets = [n.id for n in mcfg.nodes_where(lambda n: n.kind == "stmt" and isinstance(n.ast, ast.Assign) and
+                                                             any(src(tt) == "self." + a for tt in n.ast.targets) and src(n.ast.value) == "None")]
+                    if resets and mcfg.must_pass(mcfg.entry.id, resets) is None:
+                        done = True
+                chk.ob("MEMO-11", "%s forgets the lazily remembered self.%s (filled in %s when empty) on every path when the mode unloads or loads it" %
+                       (c.name, a, name), done, m.where(x), detail="a filled memo answers for the previous player: the next player's first use skips the fill",
+                       construct=c.ident, text="memo self.%s not reset" % a)
+    chk.expect(n_memo >= 1, "C11: lazily filled selection of AchievementGroup not found")
+
+    auto = repo.func("mpf/core/mode_device.py", "ModeDevice.add_control_events_in_mode")
+    chk.analysed(auto)
+    reg = [c for c in auto.calls() if call_attr(c) == "add_mode_event_handler" and len(c.args) >= 2 and src(c.args[1]) == "self.event_enable"]
+    chk.need(len(reg) == 1, "RESTORE-11", "ModeDevice's default registers event_enable for the mode start", auto)
+    edm = repo.cls("mpf/core/enable_disable_mixin.py", "EnableDisableMixin")
+    n_w = 0
+    for c in repo.subclasses(md, strict=True):
+        en = repo.lookup_method(c, "enable")
+        if en is None:
+            continue
+        forwards = [z for z in en.calls() if call_attr(z) == "enable" and not (isinstance(z.func.value, ast.Call) and call_attr(z.func.value) == "super") and
+                    dotted(z.func.value) != "self"]
+        own = en.cls is edm
+        if not (forwards or own):
+            continue
+        n_w += 1
+        eff = repo.lookup_method(c, "add_control_events_in_mode")
+        chk.analysed(en, eff)
+        regs = [z for z in ast.walk(eff.node) if isinstance(z, ast.Call) and (call_attr(z) in ("add_mode_event_handler", "add_handler") or
+                                                                               (call_attr(z) == "add_control_events_in_mode"))]
+        chk.ob("RESTORE-11", "%s (enable() writes %s persisted enable flag%s) is not enabled by the mode start itself" %
+               (c.name, "its own" if own else "its members\'", "" if own else "s"), eff is not auto and not regs, eff.where(),
+               detail="effective add_control_events_in_mode: %s" % eff.qualname, construct=c.ident, text="auto enable at mode start in effect")
+    chk.expect(n_w >= 3, "C11: devices whose enable() writes persisted flags lost (%d)" % n_w)
+
+
 def _score_queue_adds(chk, repo):
     """BARRIER-1 (conservation): the score queue *adds* each digit to the player's variable and takes the same amount off the remaining
     score -- it never overwrites what the player has accumulated."""
@@ -509,6 +587,8 @@ def battery():
         M("twin: turn start loop with a positive test", MC, "            if not mode.is_game_mode:\n                continue\n            mode.player = player", "            if mode.is_game_mode:\n                mode.player = player", None),
         M("score queue overwrites the player's score with the digit", "mpf/devices/score_queue.py", "                self.machine.game.player[self.name] += digit_score", "                self.machine.game.player[self.name] = digit_score", "BARRIER-1"),
         M("new player's variable events never switched on", "mpf/modes/game/code/game.py", "        player.enable_events(True, True)", "        pass", "DOM-21"),
+        M("achievement group keeps its remembered selection over unload", "mpf/devices/achievement_group.py", "        self._loaded = False\n        self._selected_member = None\n", "        self._loaded = False\n", "MEMO-11"),
+        M("shot group auto-enabled at mode start", "mpf/devices/shot_group.py", "    def add_control_events_in_mode(self, mode) -> None:\n        \"\"\"Remove enable here.\"\"\"\n\n", "", "RESTORE-11"),
     ]
 
 
